@@ -175,3 +175,7 @@ def replay(case):
             do_counterfactual_factor_factorization(variables=gev.to_pairs(case["event"]), graph=g)
     except Exception:  # noqa: BLE001
         pass
+
+
+def install_for_suite():
+    mon_ctf.install_blocks()
